@@ -2,7 +2,7 @@
 # runs every claimed check (tier = $1, default quick) and prints one summary line per property
 tier=${1:-quick}
 rc=0
-for p in C01 C02 C03 C04 C05 C06 C07 C08 C09 C11 C12 C13 C14 C15 C16 C17 C18 C19; do
+for p in C01 C02 C03 C04 C05 C06 C07 C08 C09 C10 C11 C12 C13 C14 C15 C16 C17 C18 C19; do
   python3 -m affcheck run $p --tier $tier | tail -1 || rc=1
 done
 exit $rc
